@@ -141,7 +141,7 @@ Proof. intros [[e s]|]; reflexivity. Qed.
 
 (* unfold the interpreter on the program text and the environment lookups (variables are numerals) *)
 Ltac ir_step :=
-  cbn [exec eval evalc evals eset env0 run_fun bind_params f_params f_body option_map snd fst same_ref
+  cbn [exec eval evalc evals eset env0 run_fun bind_params f_params f_body option_map snd fst same_ref key_in
        N.eqb Pos.eqb negb andb
        registry_code code_remove code_readd code_pre code_post code_handleDuplicate code_addObject code_reparent
        c_remove c_readd c_pre c_post c_handleDuplicate c_addObject c_reparent walker].
